@@ -12,7 +12,7 @@ from . import ops, bigop
 from .contract import LoopSpec, CellOf, ObjSpec
 
 MAX_UNROLL = 64
-FEAS_TIMEOUT_MS = 1500
+FEAS_TIMEOUT_MS = 500
 
 
 class View:
@@ -355,9 +355,7 @@ class Executor:
             if t:
                 c2 = ops.deref(t, c)
                 x = ops.coerce(t, vv, cur.elem)
-                newt = z3.Concat(z3.SubSeq(c2.t, 0, idx), z3.Unit(x.t),
-                                 z3.SubSeq(c2.t, idx + 1, n - idx - 1))
-                t.heap[c.oid].val = VSeq(cur.elem, newt)
+                t.heap[c.oid].val = c2.set_at(idx, x)
                 out.append((t, NORMAL))
             if f:
                 out.append((f, Raise(Exc("IndexError", self.line(node)))))
